@@ -3,6 +3,7 @@ package p_render
 import (
 	"bytes"
 	"fmt"
+	"strings"
 	"sync"
 	"testing"
 	"time"
@@ -117,10 +118,90 @@ func checkC25(h *hx.H, c c25Case) {
 	if c.Opts.Sketch {
 		feat++
 	}
-	h.NonTrivial(feat >= 2)
+	deep := strings.Count(c.Text, ".") >= 12 && strings.Contains(c.Text, "->")
+	if deep {
+		h.Label("deep-nesting")
+	}
+	h.NonTrivial(feat >= 2 || deep)
+}
+
+// genDeepDagre draws containers nested three or four deep with several sibling sub-containers,
+// leaves and containers that carry margins (style.multiple, person, outside labels, long
+// labels) and connections across containers: the shape for which dagre's post-processing has to
+// grow several ancestors per shift - its result once depended on map iteration order.
+func genDeepDagre(t *rapid.T) string {
+	var sb strings.Builder
+	var leaves []string
+	id := 0
+	var build func(prefix string, depth int)
+	decorate := func(path string, container bool) {
+		if container {
+			if rapid.IntRange(0, 2).Draw(t, "clbl") == 0 {
+				fmt.Fprintf(&sb, "%s.label: \"container label container label \"\n", path)
+			}
+			if rapid.IntRange(0, 5).Draw(t, "cnear") == 0 {
+				fmt.Fprintf(&sb, "%s.label.near: %s\n", path, rapid.SampledFrom([]string{"outside-top-center", "outside-right-center", "outside-bottom-left", "outside-left-center"}).Draw(t, "cnv"))
+			}
+			return
+		}
+		switch rapid.IntRange(0, 6).Draw(t, "ldec") {
+		case 0:
+			fmt.Fprintf(&sb, "%s.shape: person\n", path)
+		case 1:
+			fmt.Fprintf(&sb, "%s.style.multiple: true\n", path)
+		case 2:
+			fmt.Fprintf(&sb, "%s.label: \"long label \"\n%s.label.near: %s\n", path, path, rapid.SampledFrom([]string{"outside-top-center", "outside-bottom-center", "outside-right-center"}).Draw(t, "lnv"))
+		case 3:
+			fmt.Fprintf(&sb, "%s.shape: person\n%s.style.multiple: true\n%s.label: \"long label \"\n", path, path, path)
+		case 4:
+			fmt.Fprintf(&sb, "%s.style.3d: true\n", path)
+		}
+	}
+	build = func(prefix string, depth int) {
+		n := rapid.IntRange(1, 3).Draw(t, "kids")
+		if depth == 0 {
+			n = rapid.IntRange(2, 4).Draw(t, "roots")
+		}
+		for i := 0; i < n; i++ {
+			id++
+			path := fmt.Sprintf("%sn%d", prefix, id)
+			if depth < 3 && (depth == 0 && i > 0 || rapid.IntRange(0, 2).Draw(t, "iscont") > 0) && id < 22 {
+				decorate(path, true)
+				build(path+".", depth+1)
+			} else {
+				fmt.Fprintf(&sb, "%s\n", path)
+				decorate(path, false)
+				leaves = append(leaves, path)
+			}
+		}
+	}
+	build("", 0)
+	if len(leaves) >= 2 {
+		ne := rapid.IntRange(2, 7).Draw(t, "nedges")
+		for i := 0; i < ne; i++ {
+			a := leaves[rapid.IntRange(0, len(leaves)-1).Draw(t, "ea")]
+			b := leaves[rapid.IntRange(0, len(leaves)-1).Draw(t, "eb")]
+			if a == b {
+				continue
+			}
+			lbl := ""
+			if rapid.IntRange(0, 3).Draw(t, "elbl") == 0 {
+				lbl = ": edge label"
+			}
+			fmt.Fprintf(&sb, "%s -> %s%s\n", a, b, lbl)
+		}
+	}
+	return sb.String()
 }
 
 func genC25(t *rapid.T) c25Case {
+	if gen.Pick(t, "deep", 1, 1) == 1 {
+		c := c25Case{Text: genDeepDagre(t), Engine: "dagre", N: rapid.IntRange(3, hx.Pick(6, 12)).Draw(t, "n")}
+		if rapid.IntRange(0, 4).Draw(t, "deepelk") == 0 {
+			c.Engine = "elk"
+		}
+		return c
+	}
 	o := gen.LayoutDiagramOpts()
 	d := gen.GenDiagram(t, o)
 	text := d.Text()
